@@ -23,9 +23,9 @@ def grammar():
             for rest in ("", "Y40", "Y65 Z2", "E5", "E-5", "F0", "F", "E1 E2", "Z", "Y40 E-1", "F3000 E0.0000001"):
                 cmds.add((code + " " + x + " " + rest).strip())
     for code in ("G2", "G3"):
-        for end in ("", "X0 Y0", "X-5 Y0", "X10 Y0", "X50 Y40", "X5 Y5 Z2 E1", "X10", "X20 Y10"):
+        for end in ("", "X0 Y0", "X-5 Y0", "X10 Y0", "X50 Y40", "X5 Y5 Z2 E1", "X10", "X20 Y10", "X15 Y10"):
             for ctr in ("", "I0 J0", "I5 J0", "I5", "J-5", "R0", "R1", "R5", "R-5", "R500", "I5 J5 R5", "I0.0000001",
-                        "I1000 J0", "R", "I J", "I-5 J0", "I2.5 J0"):
+                        "I1000 J0", "R", "I J", "I-5 J0", "I2.5 J0", "R4.999", "R-4.9975", "R5.0000001", "R2.4999999"):
                 cmds.add((code + " " + end + " " + ctr).strip())
     cmds.update(["G10", "G10 S1", "G10 P1", "G10 L2 X5", "G11", "G11 S1", "G20", "G21", "G28", "G28 X", "G28 X0 Y0",
                  "G28 W", "G28 Z", "G90", "G91", "G92", "G92 E0", "G92 X5 Y5 Z5 E5", "G92 X", "G92 X1000000000000000",
